@@ -193,6 +193,8 @@ class Check:
             cmd = ["cargo", "build", "--offline", "--features", "hooks"]
             if prof == "release":
                 cmd.append("--release")
+            elif prof != "debug":
+                cmd += ["--profile", prof]   # custom profile of harness/Cargo.toml.in (e.g. "slow")
             rc, out, dt = sh(cmd, cwd=HARNESS, timeout=1800)
             if rc != 0:
                 errs = "\n".join(l for l in out.splitlines() if l.startswith("error"))[:800]
